@@ -191,8 +191,12 @@ def oracle(c, o):
 	sums = [pc.summary(r) for r in runs]
 	ref_i = max(range(len(runs)), key=lambda i: len(runs[i]['cuts']))
 	ref = sums[ref_i]
+	longest_i = max(range(len(runs)), key=lambda i: (len(sums[i][0]), i == ref_i))
+	longest = sums[longest_i][0]
 	for i, (d, e, left) in enumerate(sums):
 		if i == ref_i:
+			if e is not None and d != longest[:len(d)]:
+				return 'messages delivered before the error are not a prefix of what another fragmentation (%s) delivered before the same error' % (runs[longest_i]['cuts'][:8],)
 			continue
 		if e != ref[1]:
 			return 'first error differs between fragmentations: cuts=%s -> %r, cuts=%s -> %r' % (runs[i]['cuts'][:8], e, runs[ref_i]['cuts'][:8], ref[1])
@@ -202,9 +206,11 @@ def oracle(c, o):
 			if left != ref[2]:
 				return 'leftover differs between fragmentations: %r vs %r' % (left, ref[2])
 		else:
-			# messages completed in the erroring call are not handed out: d must be a prefix of the reference's
-			if d != ref[0][:len(d)]:
-				return 'messages delivered before the error are not a prefix of the finest fragmentation\'s'
+			# messages completed in the erroring call are not handed out: what a run delivered before the error must be a prefix of the
+			# longest list any fragmentation delivered (normally the finest one's; not when the finest one present is no per-octet run and
+			# another cut happens to separate the last good message from the erroring call)
+			if d != longest[:len(d)]:
+				return 'messages delivered before the error are not a prefix of what another fragmentation (%s) delivered before the same error' % (runs[longest_i]['cuts'][:8],)
 	return None
 
 
